@@ -35,6 +35,8 @@ import KinModel.ConcSlice
 namespace KinModel.Conc
 
 inductive OpKind | frg | frl | vreq | vresp | visit | gen
+  | dval  -- (*T).Validate on the already validated document (re-validation: legacy.NewRouter does it): by table
+          -- ConstructionWrites it writes only missing path items, of which a validated document has none — reads
   | mw    -- the handler of (*openapi3filter.Validator).Middleware: FindRoute, ValidateRequest, the wrapped handler, ValidateResponse,
           -- on ONE Validator whose Options every request shares (`Options: &v.options`)
   deriving DecidableEq, Repr
@@ -73,7 +75,7 @@ def usesRouter : OpKind → Bool
   | _ => false
 
 def validates : OpKind → Bool
-  | .vreq | .vresp | .visit | .mw => true
+  | .vreq | .vresp | .visit | .mw | .dval => true
   | _ => false
 
 /-- footprint of operation `o` when run by thread `tid` (the thread does not matter any more: both
